@@ -190,7 +190,7 @@ class Gen:
             return ast.List(elts=[self.expr(env, s, d - 1) for s in want[1]], ctx=ast.Load())
         if want[0] == "dic":
             self.feat.add("pack-dict")
-            return self.with_lookalike_keys(ast.Dict(keys=[C(k) for k in want[1]], values=[self.expr(env, s, d - 1) for s in want[1].values()]))
+            return self.with_lookalike_keys(ast.Dict(keys=[C(k) for k in want[1]], values=[self.expr(env, s, d - 1) for s in want[1].values()]), list(want[1].values()))
         if want[0] == "obj":
             cands = [e for e, s in self.sources(env, want)]
             seqs = self.sources(env, ("seq", want))
@@ -384,23 +384,30 @@ class Gen:
                     return sub(t, ast.UnaryOp(op=ast.USub(), operand=C(r.randint(1, n))))
                 return sub(t, self.selector(env, n, d))
             keys = r.sample(["a", "b", "c", "pt"], n)
-            t = self.with_lookalike_keys(ast.Dict(keys=[C(k) for k in keys], values=[self.num(env, d - 1) for _ in keys]))
+            t = self.with_lookalike_keys(ast.Dict(keys=[C(k) for k in keys], values=[self.num(env, d - 1) for _ in keys]), [NUM] * len(keys))
             how, sel = self.dict_selector(env, keys, d)
             return attr(t, sel) if how == "attr" else sub(t, sel)
         return r.choice(src) if src else C(7)
 
-    def with_lookalike_keys(self, dnode):
+    def with_lookalike_keys(self, dnode, shapes=None):
         """now and then a decoy entry is put in front of a key: a DIFFERENT string that unicode normalisation (NFKC, what python
         applies to identifiers) maps to the same text, e.g. fullwidth 'a' - python's dict keeps them apart"""
         if self.runtime_keys and self.r.random() < self.runtime_keys:
             # ... or a key that is only known when the query runs, written AFTER a field and equal to it on this data: python
             # keeps the later value, whatever a rewrite thinks it can read off the display
-            i = self.r.randrange(len(dnode.keys))
+            nums = [j for j, sh in enumerate(shapes or []) if sh == NUM]
+            i = self.r.choice(nums) if nums and self.r.random() < 0.8 else self.r.randrange(len(dnode.keys))  # (a number can stand in for a number)
             k = dnode.keys[i].value
-            self.feat.add("run-time-dict-key")
-            key = ast.IfExp(test=ast.Compare(left=C(1), ops=[ast.Lt()], comparators=[C(2)]), body=C(k), orelse=C("zz_"))
-            dnode.keys.insert(i + 1, key)
-            dnode.values.insert(i + 1, C(-998))
+            if self.r.random() < 0.5:
+                self.feat.add("run-time-dict-key")
+                key = ast.IfExp(test=ast.Compare(left=C(1), ops=[ast.Lt()], comparators=[C(2)]), body=C(k), orelse=C("zz_"))
+                dnode.keys.insert(i + 1, key)
+                dnode.values.insert(i + 1, C(-998))
+            else:
+                # ... or a ** mapping written after the field that carries the same key
+                self.feat.add("dict-unpacking-after-a-field-it-overrides")
+                dnode.keys.insert(i + 1, None)
+                dnode.values.insert(i + 1, ast.Dict(keys=[C(k)], values=[C(-997)]))
             return dnode
         if self.r.random() >= 0.12:
             return dnode
